@@ -344,6 +344,20 @@ def check_terminal_transfer(eng, res, rule="R-TERMINAL-TRANSFER"):
         base_ok = ok and found[a][2].endswith(".bond_descriptors[0]")
         res.ob(rule, fi, f"transfer:{a}", f"at a prefix start the left terminal's {a} is copied onto the prefix molecule's single open descriptor",
                found[a][1] if ok else gen.node, ok and base_ok, "not copied" if not ok else f"copied onto {found[a][2]}")
+    for a in found:
+        f, n, _ = found[a]
+        fl = eng.flow(f)
+        g = []
+        for gn, label in sorted(fl.cfg.guards(fl.cfg.node_of(n))):
+            st = fl.cfg.nodes[gn].stmt
+            if not isinstance(st, ast.If):
+                continue
+            if fl.cfg.branch_raises(gn, "F" if label == "T" else "T"):
+                continue  # the complement of a validation that raises is context, not a condition
+            g.append((src(fl.expand_shallow(st.test, gn)), label == "T"))
+        extra = [x for x in g if x not in (("prefix is None", False), ("prefix is not None", True), ("prefix", True))]
+        res.ob(rule, f, f"transfer:{a}:unconditional", f"the {a} is transferred at every prefix start (a scalar terminal must also reset a list left over from the previous element)",
+               n, not extra, f"transfer happens only under {extra}")
     if len(found) == 2:
         ok = found["weight"][2] == found["transitions"][2] and getattr(found["weight"][1], "_parent") is getattr(found["transitions"][1], "_parent")
         res.ob(rule, found["weight"][0], "transfer:same-target", "both fields go to the same descriptor, in the same block", found["weight"][1], ok)
